@@ -49,3 +49,26 @@ def build(P, rs, name="sdm", spelling=0):
     interval = float(P["pint"] * fr(rs["dt"]))
     pl = m.converter("pl"); pl.equation = sd.pulse(m, f(P["pv"]), first, interval)
     return m, start, stop, dt
+
+
+EDITABLE = ["c1", "fin", "bf", "fout", "fo2", "s1", "s2", "s3", "s4", "lkt", "lks"]      # elements that do not capture parameters when built
+
+
+def edit(m, P, spelling=0):
+    """edits an existing model in place into the member of the family with parameters P (constants, the stock's initial
+    value, the lookup table) and re-assigns the equations of the stocks: s1 and s2 in another spelling of the same
+    mathematics, s3 and s4 with their equations EXCHANGED (afterwards s3 is the reference s4 and vice versa)"""
+    from BPTK_Py import sd_functions as sd
+    f = lambda v: float(fr(v))
+    c = m.constants
+    c["a"].equation = f(P["a"]); c["b"].equation = f(P["b"]); c["qf"].equation = f(P["q"]); c["g"].equation = f(P["g"])
+    m.points["tab"] = [[f(x), f(y)] for x, y in P["pts"]]
+    c1, g = m.converters["c1"], c["g"]
+    fin, fout, fo2, bf = m.flows["fin"], m.flows["fout"], m.flows["fo2"], m.biflows["bf"]
+    s1, s2, s3, s4 = (m.stocks[n] for n in ("s1", "s2", "s3", "s4"))
+    s1.initial_value = f(P["s0"])
+    s1.equation = [lambda: fin - (fout + fo2), lambda: fin - fout - fo2, lambda: (-fout) + fin + (-fo2)][spelling % 3]()
+    s2.equation = [lambda: fout + bf, lambda: bf + fout, lambda: 1.0 * bf + fout][spelling % 3]()
+    s3.equation = [lambda: sd.lookup(sd.time(), "tab") + c1 ** 2, lambda: c1 * c1 + sd.lookup(sd.time(), "tab")][spelling % 2]()
+    s4.equation = [lambda: sd.max(c1, g), lambda: sd.If(c1 > g, c1, g)][spelling % 2]()
+    m.reset_cache()
